@@ -12,7 +12,8 @@ From RU Require Import Base.Prelude Base.Utf8 Base.Utf8Facts Model.AsciiSet Gen.
   Proofs.C05_ParseUI Proofs.C05_ParseAll Proofs.C05_CompSteps2 Proofs.C05_CompReach Proofs.C05_ParseEx
   Proofs.C03_WF Proofs.C06_Suffix Proofs.C05_BaseOk Proofs.C05_CompSteps3 Proofs.C05_FinEx Proofs.C05_Alphabet
   Proofs.C05_AuthOfs Proofs.C05_AuthParse Proofs.C05_HostText Proofs.C15_Ser Proofs.C05_Qpm Proofs.C05_ReachF Proofs.C05_FinEx2
-  Proofs.C05_HostClause Proofs.C05_HostParse Proofs.C05_HostInst.
+  Proofs.C05_HostClause Proofs.C05_HostParse Proofs.C05_HostInst
+  Proofs.C05_PathSp Proofs.C05_PathSpParse Proofs.C05_PathSpSteps Proofs.C05_ReachFSp.
 From RU Require Import Model.Host Proofs.C09_Host.
 From RU Require Import Model.FormUrlencoded Model.QueryPairs.
 
@@ -749,6 +750,54 @@ Check C05_reachF_model : forall dbg idna, IdnaOK idna -> forall u,
   (wfh u /\ components_clean dbg u) /\ alphabet_ok u /\ sharp u /\ base_ok u = true
   /\ (spb u = true -> forall s, host_str u = Some (Some s) -> host_text_clean s).
 Print Assumptions C05_reachF_model.
+
+(* ================= 7. the backslash clause: special-scheme paths contain no '\' ================= *)
+(* the hierarchical path states for a special scheme, in EVERY context (URL parser, Url::set_path, path_segments_mut)
+   and for ANY input numbers, keep the text in front of the path and write no backslash: in the parser / set_path
+   contexts '\' is a separator (written as '/'), in the path_segments_mut context SPECIAL_PATH_SEGMENT encodes it *)
+Theorem C05_special_path_states : forall dbg ctx st hh s0 l s1 hh' rem, st_is_special st = true ->
+  parse_path_start dbg ctx st hh s0 l = POk (s1, hh', rem) ->
+  exists P, s1 = s0 ++ P /\ forallb nb P = true.
+Proof. exact parse_path_start_nb. Qed.
+Check C05_special_path_states : forall dbg ctx st hh s0 l s1 hh' rem, st_is_special st = true ->
+  parse_path_start dbg ctx st hh s0 l = POk (s1, hh', rem) ->
+  exists P, s1 = s0 ++ P /\ forallb nb P = true.
+Print Assumptions C05_special_path_states.
+
+(* BS u := special scheme -> every byte of the stored path slice is not '\'.  Every record parse_url returns, any input
+   numbers, no hypothesis on the host functions; base: wf_b, AS, BS *)
+Theorem C05_special_path_parse : forall dbg hp hpo hd ovr base input u,
+  match base with Some b => wf_b b = true /\ AS b /\ BS b | None => True end ->
+  parse_url dbg hp hpo hd ovr base input = POk u -> BS u.
+Proof. exact parse_url_bs. Qed.
+Check C05_special_path_parse : forall dbg hp hpo hd ovr base input u,
+  match base with Some b => wf_b b = true /\ AS b /\ BS b | None => True end ->
+  parse_url dbg hp hpo hd ovr base input = POk u -> BS u.
+Print Assumptions C05_special_path_parse.
+
+(* every record of CReachF with a special scheme is not cannot-be-a-base and its path() contains no '\' *)
+Theorem C05_special_path_reachF : forall dbg hp hpo hd u, HostWf hp hpo hd -> HostOK hp hpo hd -> IpDisp hd -> IpOKv hd ->
+  CReachF dbg hp hpo hd u -> spb u = true ->
+  cannot_be_a_base u = Some false /\ forall p, path u = Some p -> ~ In 92 p.
+Proof. intros dbg hp hpo hd u HW HOK HI HV. exact (creachF_special_path dbg hp hpo hd HW HOK HI HV u). Qed.
+Check C05_special_path_reachF : forall dbg hp hpo hd u, HostWf hp hpo hd -> HostOK hp hpo hd -> IpDisp hd -> IpOKv hd ->
+  CReachF dbg hp hpo hd u -> spb u = true ->
+  cannot_be_a_base u = Some false /\ forall p, path u = Some p -> ~ In 92 p.
+Print Assumptions C05_special_path_reachF.
+
+Theorem C05_special_path_model : forall dbg idna, IdnaOK idna -> forall u,
+  CReachF dbg (host_parse idna) host_parse_opaque host_display u -> spb u = true ->
+  cannot_be_a_base u = Some false /\ forall p, path u = Some p -> ~ In 92 p.
+Proof. intros dbg idna OK. exact (reachF_special_path_model idna OK dbg). Qed.
+Check C05_special_path_model : forall dbg idna, IdnaOK idna -> forall u,
+  CReachF dbg (host_parse idna) host_parse_opaque host_display u -> spb u = true ->
+  cannot_be_a_base u = Some false /\ forall p, path u = Some p -> ~ In 92 p.
+Print Assumptions C05_special_path_model.
+
+(* non-vacuity (Proofs/C05_FinEx2.v): parse "http://h.x\a"; set_path("x\y"); path_segments_mut().push("c\d") is a history
+   of CReachF and gives "http://h.x/x/y/c%5Cd" *)
+Example C05_special_path_inhabited : bs_example_stmt.
+Proof. exact bs_example. Qed.
 
 (* ================= non-vacuity ================= *)
 Definition ex_hp (s : list N) : result host := Ok (HDomain s).
